@@ -30,3 +30,8 @@ VALIDATION = [validate_bs4]
 FUNCTIONS = FUNCTIONS + [q for q in CACHE + INDET + DIRFN if q not in FUNCTIONS]
 STRUCTURAL = (globals().get('STRUCTURAL') or []) + [indet_structural]
 SHARDS = dict(SHARDS)
+
+FUNCTIONS = FUNCTIONS + [q for q in [q for q in PARSE_SMALL if q.endswith("parse_pseudo_class") or q.endswith("parse_pseudo_dir")] if q not in FUNCTIONS]
+STRUCTURAL = (globals().get('STRUCTURAL') or []) + [dispatch_structural]
+TRUSTED = list(TRUSTED) + [A_TOK]
+ASSUMPTIONS = TRUSTED
